@@ -546,5 +546,7 @@ func runC09(c *core.Ctx) {
 	lap("polygon-many-vertices")
 	c09Multi(c, distinct)
 	lap("polygon-multi-loop")
+	c09FaceEdgeVertices(c, distinct)
+	lap("polygon-face-edge-vertices")
 	c.Nontrivial(distinct.n())
 }
